@@ -140,3 +140,22 @@ PROPS["C05"] = dict(
     level_note="Trusted: libp2p's envelope protobuf and key implementations; the harness's notion of 'semantically identical envelope'.",
     assumptions=["simultaneous changes to neighbouring values are outside the claim and are not generated"],
 )
+
+PROPS["C13"] = dict(
+    race=False,
+    shards={"quick": 8, "thorough": 16},
+    level="exploration",
+    design_ref="DESIGN.md §4 C13",
+    technique="runtime monitor: round-trip and typed-vs-generic differential over generated values and mutated encodings, panic guard",
+    rule=("ad-roundtrip: all 2^7 combinations of (removal flag, previous link, no-entries sentinel, extended providers present, override, "
+          "non-empty provider list, unusual strings) x seeded contents (0..5 addresses, empty/maximal context id and metadata), both codecs: "
+          "decode(encode(v)) == v with optional parts kept absent/present, re-encoding stable, generic-prototype+Unwrap == typed, Store twice => "
+          "same CID, load typed/generic == v; chunk-roundtrip: 0..50 multihashes of six hash functions with/without next link, same checks; "
+          "hostile: seeded mutants of dag-json and dag-cbor encodings through BytesToAdvertisement/BytesToEntryChunk: error or re-encodable "
+          "value, typed and generic paths agree, no panic. distinct_nontrivial = option-bit combinations, chunk shapes and (mutation kind, codec, "
+          "type) among ACCEPTED hostile inputs."),
+    floors={"quick": {"hostile_accepted": 300, "hostile_rejected": 10000, "distinct": 150}},
+    level_text=("Exploration: the library's own encode/decode/store/load entry points are executed on every combination of optional parts and on "
+                "tens of thousands of mutated encodings; oracles are value equality, CID equality, typed/generic agreement and absence of panics."),
+    level_note="Trusted: go-ipld-prime's codecs as the reference for what 'encodes' means; the harness's equality (nil ~ empty).",
+)
